@@ -583,6 +583,7 @@ package router
 //@ # ---- C13: EPIC
 //@ import epic "github.com/scionproto/scion/pkg/slayers/path/epic"
 //@ import libepic "github.com/scionproto/scion/pkg/experimental/epic"
+//@ import empty "github.com/scionproto/scion/pkg/slayers/path/empty"
 //@ macro epOf(p) = asptr(p.scionLayer.Path, *epic.Path)
 //@ func (*scionPacketProcessor).processEPIC
 //@   props C13
@@ -635,6 +636,7 @@ package router
 //@   maxpaths 20000
 //@   inlines decodeLayers
 //@   requires processorInv(p) && pkt != nil && pkt.Link != nil && !sameArray(p.macInputBuffer, pkt.RawPacket)
-//@   requires p.scionLayer.pathPool != nil ==> len(p.scionLayer.pathPool) >= 4 && p.scionLayer.pathPoolRaw != nil && forall i int :: 0 <= i && i < len(p.scionLayer.pathPool) ==> p.scionLayer.pathPool[i] != nil
+//@   # the recycled path objects are exactly what RecyclePaths installs (the only writer of pathPool)
+//@   requires p.scionLayer.pathPool != nil ==> len(p.scionLayer.pathPool) == 4 && p.scionLayer.pathPoolRaw != nil && typeis(p.scionLayer.pathPoolRaw, *path.rawPath) && typeis(p.scionLayer.pathPool[0], empty.Path) && typeis(p.scionLayer.pathPool[1], *scion.Raw) && asptr(p.scionLayer.pathPool[1], *scion.Raw) != nil && typeis(p.scionLayer.pathPool[2], *onehop.Path) && asptr(p.scionLayer.pathPool[2], *onehop.Path) != nil && typeis(p.scionLayer.pathPool[3], *epic.Path) && asptr(p.scionLayer.pathPool[3], *epic.Path) != nil
 //@   # the receiver hands over packets fresh from Packet.reset: egress is zero, and interface 0 (the internal link) always exists
 //@   requires p.d.interfaces[0] != nil && pkt.egress == 0
